@@ -25,7 +25,9 @@ def main():
     for p in props:
         pid = p['id']
         path = os.path.join(core.VERIF_DIR, 'vfw', 'props', pid.lower() + '.py')
-        if not os.path.exists(path):
+        with open(os.path.join(core.VERIF_DIR, 'vfw', 'ready.txt')) as rf:
+            ready = set(rf.read().split())
+        if not os.path.exists(path) or pid not in ready:
             na.append({'property_id': pid,
                        'reason': NOT_BUILT_REASON.get(pid, 'check not built yet (planned in DESIGN.md section 4); '
                                                            'nothing is claimed for this property')})
